@@ -8,6 +8,8 @@ the textbook notions the queries are supposed to compute.  Only `Graph`, `keys`,
 -/
 namespace Heph.Graph
 
+instance (g : Graph) : Decidable (WFG g) := inferInstanceAs (Decidable (keys g).Nodup)
+
 /-- reachability through key vertices: the reflexive–transitive closure of
     "`c` is a neighbour of `b` and `c` is a key of the graph" (what the key-only `visited`
     map of `reachable` can see). -/
